@@ -217,7 +217,7 @@ void h_search(void)
   __CPROVER_assume(D0 >= -20 && D0 <= 700 && D1 >= -20 && D1 <= 700 && D2 >= -20 && D2 <= 700);
   int64_t delay[NE] = { D0, D1, D2 };
   b_setup(N, delay, CUR0, CUR1, 1000);
-  G_loop_iters = 0; G_iter_budget = 4 * NE;      /* a terminating advance handles each entry at most once per walk (collect, cascade) plus one level-loop round per re-insertion */
+  G_loop_iters = 0; G_iter_budget = 2 * NE;      /* one tick step of a terminating advance walks each entry at most once (collect or cascade) plus at most one level-loop round per re-insertion */
   BW._lastAdvanceTime = 0;
   iora_firelist fl; fl.n = 0;
   TimingWheel_advanceLocked(&BW, 1000 + EL, &fl);
